@@ -28,16 +28,16 @@ import HeartwoodModel.Driver.Util
   Output per op: `<op>:<events>`, events `Tr<id>`/`Ti<id>` worker task (responder/initiator), `So<id>`/`Sc<id>`
   control frame sent, `-` nothing, `P` panic (run stops).
 
-`serviceCode` / `streamsCode` select the version of the code the driver mirrors: `/repo` main as it is.
-When the repairs of `fixes-pending/C13-*.patch` are committed to `/repo`, switch them to `.fixed`.
+`serviceCode` / `streamsCode`: the version of the code the driver mirrors: `/repo` main, including the repairs
+614904d (stream pre-open) and 192a092 (subscribe backlog).
 -/
 namespace HeartwoodModel.Driver.C13
 open HeartwoodModel.Driver.Util
 
 /-- Version of `service.rs` mirrored by the driver. -/
-def serviceCode : HeartwoodModel.ServiceInput.Code := HeartwoodModel.ServiceInput.Code.fixed
+def serviceCode : HeartwoodModel.ServiceInput.Code := HeartwoodModel.ServiceInput.Code.current
 /-- Version of `wire/protocol.rs` mirrored by the driver. -/
-def streamsCode : HeartwoodModel.Streams.Code := HeartwoodModel.Streams.Code.fixed
+def streamsCode : HeartwoodModel.Streams.Code := HeartwoodModel.Streams.Code.current
 
 /-! ### (a) -/
 section A
